@@ -162,8 +162,22 @@ def run(ctx):
                 "several commands received within one event-loop step; non-trivial = some command had >= 2 candidate "
                 "listeners; distinct by event list")
     lines, metas = [], []
-    for _ in range(ctx.scale(250, 6000)):
-        evs = gen_history(r, general if r.random() < 0.7 else allp, allc, 25)
+    # systematic: 2..3 waiters with the SAME pattern, one of them cancelled, then matching responses
+    systematic = []
+    for p in r.sample(general, min(len(general), ctx.scale(10, 40))):
+        cs = [c for c in allc if cmduniv.spec_matches(p, c)]
+        for n in (2, 3):
+            for victim in range(1, n + 1):
+                for settle_first in (True, False):
+                    c = r.choice(cs)
+                    evs = [("W", k + 1, [p]) for k in range(n)] + [("X", victim)]
+                    if settle_first:
+                        evs.append(("Z",))
+                    evs += [("R", c), ("Z",), ("R", c), ("R", c), ("Z",), ("R", c)]
+                    systematic.append(evs)
+    nrand = ctx.scale(250, 6000)
+    for it in range(len(systematic) + nrand):
+        evs = systematic[it] if it < len(systematic) else gen_history(r, general if r.random() < 0.7 else allp, allc, 25)
         outs = run_history(evs, classes)
         if len(outs) != len(evs):
             # batches run at the next Z: re-align (outs are produced in event order within and across batches)
